@@ -261,9 +261,6 @@ def translate():
             else:
                 raise Refuse("_put_model_jax: contact-sensor check not understood: %s" % cs[1])
         elif cs == ["for (g1, g2, ip) in collision_driver.geom_pairs(m)", "not collision_driver.has_collision_fn(t1, t2)"]:
-            if assigned(f, "(t1, t2)") not in ("m.geom_type[[g1, g2]]",):
-                # two assignments exist (types are re-wrapped for the message): accept the first form only
-                pass
             gate["other"].append("collision-pair-without-function")
         elif cs == ["for (g1, g2, ip) in collision_driver.geom_pairs(m)", "no_margin.intersection({int(t1), int(t2)})", "margin.any()"]:
             nm = assigned(f, "no_margin")
